@@ -107,6 +107,82 @@ def lbfgs_witness():
     return dict(lowest_loss=s.lowest_loss, recomputed_with_best_nets=redo, reproduces=abs(redo - s.lowest_loss) <= 1e-12 * (1 + abs(redo)))
 
 
+def direct_checks(seed):
+    """best-model tracking on real solvers, outside fit(): epochs run by hand, save(), load() with user networks"""
+    import contextlib, io, os, tempfile, warnings
+    from copy import deepcopy
+    import dill
+    import torch
+    from neurodiffeq import diff
+    from neurodiffeq.solvers import Solver1D
+    from neurodiffeq.solvers_utils import SolverConfig
+    from neurodiffeq.conditions import IVP
+    from neurodiffeq.networks import FCNN
+    from neurodiffeq.generators import Generator1D
+    from ..fixtures import c18_eqs as E
+    bad = []
+    with warnings.catch_warnings():
+        warnings.simplefilter('ignore')
+        # (a) epochs run through run_train_epoch() / run_valid_epoch() (the documented building blocks of fit()) are tracked like any other
+        for nv in (2, 0):
+            torch.manual_seed(seed + 5)
+            vg = Generator1D(6, 0., 1., method='equally-spaced')
+            s = Solver1D(E.ode, [IVP(0., 1.)], t_min=0., t_max=1., nets=[FCNN(1, 1, hidden_units=(4,))], n_batches_train=1, n_batches_valid=nv,
+                         train_generator=Generator1D(6, 0., 1., method='equally-spaced'), valid_generator=vg,
+                         optimizer=None)
+            for _ in range(4):
+                s.run_train_epoch()
+                s.run_valid_epoch()
+            hist = s.metrics_history['valid_loss'] if nv else None
+            if nv:
+                t = vg.get_examples().reshape(-1, 1).requires_grad_()
+                redo = None if s.best_nets is None else float(((diff(s.conditions[0].enforce(s.best_nets[0], t), t) + s.conditions[0].enforce(s.best_nets[0], t)) ** 2).mean())
+                if s.lowest_loss is None or s.lowest_loss != min(hist) or redo is None or abs(redo - s.lowest_loss) > 1e-12 * (1 + abs(redo)):
+                    bad.append(dict(case='four epochs run by hand (run_train_epoch + run_valid_epoch)', n_batches_valid=nv, violated='lowest_loss is not the '
+                                    'minimum of the validation history / best_nets do not reproduce it', lowest_loss=s.lowest_loss, history=hist, recomputed=redo))
+            elif s.lowest_loss is None or s.best_nets is None:
+                bad.append(dict(case='four epochs run by hand, validation disabled', violated='nothing was tracked', lowest_loss=s.lowest_loss))
+        # (b) save() does not touch the stored best networks (buffers included); (c) load() with user networks keeps the saved best networks
+        path = tempfile.mktemp(prefix='verif-c05-')
+        dill.settings['byref'] = True
+        try:
+            torch.manual_seed(seed + 6)
+            net = E.CountingNet()
+            s = Solver1D(E.ode, [IVP(0., 1.)], t_min=0., t_max=1., nets=[net], n_batches_valid=1,
+                         train_generator=Generator1D(6, 0., 1.), valid_generator=Generator1D(6, 0., 1., method='equally-spaced'),
+                         optimizer=torch.optim.SGD(net.parameters(), lr=0.01))
+            s.fit(3, tqdm_file=None)
+            before = {k: v.clone() for k, v in s.best_nets[0].state_dict().items()}
+            low = s.lowest_loss
+            try:
+                s.save(path=path)
+            except Exception:
+                pass
+            after = s.best_nets[0].state_dict()
+            if s.lowest_loss != low or any(not torch.equal(before[k], after[k]) for k in before):
+                bad.append(dict(case='save() of a solver whose network has a buffer updated by every forward pass', violated='the stored best networks '
+                                'changed although no lower loss occurred', changed=[k for k in before if not torch.equal(before[k], after[k])]))
+            if os.path.exists(path):
+                cfg = SolverConfig()
+                mine = [E.CountingNet()]
+                cfg.nets = mine
+                with contextlib.redirect_stdout(io.StringIO()):
+                    l = Solver1D.load(path=path, config=cfg)
+                saved_best = s.best_nets[0].state_dict()
+                if l.best_nets is None or any(b is n for b in l.best_nets for n in l.nets) or l.lowest_loss != s.lowest_loss \
+                        or any(not torch.equal(saved_best[k], l.best_nets[0].state_dict()[k]) for k in ('lin.weight', 'lin.bias')):
+                    bad.append(dict(case='load() with user networks in the SolverConfig', violated='the best networks of the loaded solver are not the saved '
+                                    'best networks (the ones that produced lowest_loss)', best_is_live_network=bool(l.best_nets is not None and any(b is n for b in l.best_nets for n in l.nets)),
+                                    lowest_loss=l.lowest_loss))
+        except Exception as e:
+            bad.append(dict(case='save / load with a buffer-carrying network', violated='raised', error=f'{type(e).__name__}: {e}'))
+        finally:
+            dill.settings['byref'] = False
+            if os.path.exists(path):
+                os.remove(path)
+    return bad
+
+
 def check(tier, seed):
     rep = Report(PID, tier, seed)
     ok, hits = kernel_phase(rep, 'NdeVerif.Proofs.C05', 'NdeVerif.C05', THEOREMS)
@@ -128,6 +204,7 @@ def check(tier, seed):
     pbad, pruns, pstats = _C18.stream_real(random.Random(seed * 31 + 5), 3 if tier == 'quick' else 12, True)
     rep.coverage['persisted_best_tracking'] = dict(save_load_cycles=pruns, **pstats)
     bad += [b for b in pbad if any(w in b.get('violated', '') for w in ('best', 'lowest'))]
+    bad += direct_checks(seed)
     rep.samples = [dict(script=l, solver=kw) for l, kw in camp.scripts[:3]]
     rep.assumptions = ['optimiser arithmetic is an oracle (scripted integer optimisers in the correspondence; real Adam/LBFGS are not modelled)',
                        'deepcopy of the networks is a value copy (observed: best_nets never aliases nets)',
